@@ -430,7 +430,11 @@ def scenarios(pid, tier):
                                 allow_drop_created=True), 150 if q else 3000)],
             rnd=[("n2a2", dict(BASE, n=2, max_req=3, max_pdus=2, send_fail_budget=2, dup_budget=2,
                                 allow_drop_created=True), 150 if q else 5000),
-                 ("n1a3", dict(BASE, apps=3, max_req=2, send_fail_budget=1, dup_budget=1), 80 if q else 3000)],
+                 ("n1a3", dict(BASE, apps=3, max_req=2, send_fail_budget=1, dup_budget=1), 80 if q else 3000),
+                 # a response that arrives while the transmit side is still inside the send call (the request then
+                 # needs its deadline to get on, hence timers; without releases while a party is inside: that is C06's F4)
+                 ("n2a2early", dict(BASE, n=2, max_req=2, retry_set=[0, 1], allow_timer=True, early_response=True,
+                                    no_release_inside=True), 100 if q else 3000)],
         )
     if pid == "C03":
         inv = ["NoLeak", "FreeMeansUnowned", "NoOrphan"]
